@@ -222,6 +222,10 @@ func scenarioDatagram() int {
 					run.Eval(fmt.Sprintf("%s|%s|src%d", d.kind, sz, min8(nsrc)))
 					continue
 				}
+				if len(obs) == 0 {
+					w.Net.WaitCase(d.id, func(o []*wire.Obs) bool { return len(o) >= 1 }, w.BarrierWait)
+					obs = w.Net.ForCase(d.id)
+				}
 				if len(obs) != 1 {
 					if len(obs) == 0 && wire.UDPDrops() > 0 {
 						run.Inconclusive(1)
